@@ -75,6 +75,11 @@ def equivalences():
             add(f"{how}_join_vs_cross_filter/{kname}", (lk, "h"),
                 lambda x, c, lk=lk, rk=rk, how=how: (lambda uf: x >> pdt.join(uf, x[lk] == uf[rk], how) >> pdt.filter(uf[rk].is_not_null()))(_uf(c)),
                 lambda x, c, lk=lk, rk=rk: (lambda uf: x >> pdt.cross_join(uf) >> pdt.filter(x[lk] == uf[rk]))(_uf(c)))
+    # an aggregate in mutate does not depend on the row order: arrange before == arrange after
+    add("arrange_then_agg_mutate_vs_agg_mutate_then_arrange", ("a", "h"), lambda x, c: x >> pdt.arrange(C.h.descending()) >> pdt.mutate(sm=C.a.sum(), mx=C.h.max(), n=pdt.count()),
+        lambda x, c: x >> pdt.mutate(sm=C.a.sum(), mx=C.h.max(), n=pdt.count()) >> pdt.arrange(C.h.descending()))
+    add("arrange_then_grouped_agg_mutate_vs_partition_by", ("a", "h"), lambda x, c: x >> pdt.arrange(C.h) >> pdt.group_by(C.a) >> pdt.mutate(sm=C.h.sum()) >> pdt.ungroup(),
+        lambda x, c: x >> pdt.mutate(sm=C.h.sum(partition_by=C.a)) >> pdt.arrange(C.h))
     add("inner_join_vs_cross_filter/<", ("a", "h"), lambda x, c: x >> pdt.inner_join(c.u, (x.a < c.u.a) & (x.h + 5 >= c.u.h)), lambda x, c: x >> pdt.cross_join(c.u) >> pdt.filter((x.a < c.u.a) & (x.h + 5 >= c.u.h)))
     add("map_vs_when", ("a", "h"), lambda x, c: x >> pdt.mutate(m=x.a.map({1: 10, (2, 3): 20}, default=x.h)), lambda x, c: x >> pdt.mutate(m=pdt.when(x.a == 1).then(10).when(x.a.is_in(2, 3)).then(20).otherwise(x.h)))
     add("map_vs_when/nodefault", ("a",), lambda x, c: x >> pdt.mutate(m=x.a.map({1: 10, 5: 50})), lambda x, c: x >> pdt.mutate(m=pdt.when(x.a == 1).then(10).when(x.a == 5).then(50).otherwise(x.a)))
